@@ -93,7 +93,7 @@ def _judge_vmfault(nested, result, ftype, prot, pid_base):
     return None
 
 
-LAUNCH_KINDS = ['a1', 'a2', 'a2b', 's1', 's2', 'b', 'W']
+LAUNCH_KINDS = ['a1', 'a2', 'a2b', 's1', 's2', 'b', 'W', 'a3q', 's3q']     # ..q: the record carries the ALL qualifier (START|END)
 
 
 def launch_event(kind, i, tid=1):
@@ -101,9 +101,9 @@ def launch_event(kind, i, tid=1):
         return E.ev('DYLD_uuid_map_b', 0, (7, 0, 0, 0), tid=tid)
     if kind == 'W':
         return E.ev('MACH_WAIT', 0, (0x10, 0, 0, 0), tid=tid)
-    addr = {'a1': 0x1000, 'a2': 0x2000, 'a2b': 0x2000, 's1': 0x1800, 's2': 0x2000}[kind]
+    addr = {'a1': 0x1000, 'a2': 0x2000, 'a2b': 0x2000, 's1': 0x1800, 's2': 0x2000, 'a3q': 0x3000, 's3q': 0x2800}[kind]
     name = 'DYLD_uuid_map_a' if kind[0] == 'a' else 'DYLD_uuid_shared_cache_a'
-    return E.ev(name, 0, (0x100 + i, 0x200 + i, addr, 9), tid=tid)
+    return E.ev(name, 3 if kind.endswith('q') else 0, (0x100 + i, 0x200 + i, addr, 9), tid=tid)
 
 
 def judge_launch(nested):
